@@ -1,18 +1,25 @@
 PROP = dict(
     coq=["Html/HtmlHarness.vo", "Html/Lit.vo"],
     legs=[
-        dict(driver="html", binary="zhtml", quick=500, thorough=12000, shard=50,
+        dict(driver="html", binary="zhtml", quick=400, thorough=12000, shard=50,
              monitors=["standard_attrs_extracted (every planted asset URL outside the named exclusions, tag enabled, is among HTMLAssets' strings)",
                        "anchors_become_outlinks (every planted <a href>, resolved, is among HTMLOutlinks' URLs and, hop limit allowing, among the items postprocessItem returns)",
                        "requested_unless_excused (children / outlink items normalise to the RFC 3986 resolution of every planted simple reference)",
-                       "property_text_without_exclusions (as the previous one, for every planted reference: the code's deliberate heuristics show up here)"]),
+                       "property_text_without_exclusions (as the previous one, for every planted reference: the code's deliberate heuristics show up here)",
+                       "redirect_chain_followed (not applicable to this driver)"]),
+        dict(driver="htmlreq", binary="zhtml", quick=200, thorough=4000, shard=50,
+             monitors=["standard_attrs_extracted (as for html)",
+                       "anchors_become_outlinks (the page sits behind 0..4 redirects in a seed tree built by the real postprocess()/preprocess(): redirects do not count for the depth limit)",
+                       "requested_unless_excused (the REQUEST the real preprocess() built for every planted simple reference has the URL of its RFC 3986 resolution against the PAGE - the last URL of the chain, not the seed)",
+                       "property_text_without_exclusions (the same for every planted reference)",
+                       "redirect_chain_followed (the item that received the page has the URL the chain of Location headers leads to, every hop resolved against its parent)"]),
     ],
     partial="goquery / golang.org/x/net/html, net/url (resolveURL), ada (NormalizeURL), encoding/json and xurls are oracles: the theorems are over DOMs and over reference ASTs of the simple forms; "
             "the driver checks on every document that the real parser reads the rendering back to the generated DOM and records the oracles' answers. No theorem covers arbitrary bytes.",
     assumptions=["the HTML parser reads the rendering of a generated DOM back to that DOM (checked node by node on every case)",
-                 "on simple references NormalizeURL (ada) returns the RFC 3986 section 5.2 resolution against the page URL (checked on every planted reference by monitor 2)",
+                 "on simple references NormalizeURL (ada) returns the RFC 3986 section 5.2 resolution against the parent it is given (checked on every planted reference by monitor 2, on every redirect hop by monitor 4)",
                  "the two CSS regular expressions match what Scan.bg_scan / Scan.css_scan say on valid UTF-8, and srcsetURLs what Scan.ss_scan says (checked by the edge stream)"],
     level_text="Theorems for all DOMs, all configurations (disable-html-tag, capture-alternate-pages, disable-assets-capture, max-hops) and all item states: every URL planted in a standard embedding attribute "
-               "is extracted unless a NAMED exclusion applies, anchors become outlinks under the hop guard, the srcset splitter (HTML's algorithm: commas inside URLs, any ASCII white space before descriptors) and the two url() scanners are complete on well-formed values; the code before the C07 repairs is kept as _orig definitions with refutation witnesses; "
+               "is extracted unless a NAMED exclusion applies, anchors become outlinks under the hop guard, redirects do not count for the depth limit and the base of resolution moves along a redirect chain to the page (all chain lengths), the srcset splitter (HTML's algorithm: commas inside URLs, any ASCII white space before descriptors) and the two url() scanners are complete on well-formed values; the code before the C07 repairs is kept as _orig definitions with refutation witnesses; "
                "tied to HTMLAssets/HTMLOutlinks/postprocessItem/NormalizeURL by a differential check on generated documents.",
 )
